@@ -5,7 +5,7 @@ CONSTANTS
   Kind = "contacts"
   Atoms <- AtomsList
   Prefix <- PfxNone
-  MaxLen = 4
+  MaxLen = 3
   Cfgs <- CfgsCont
   Junk = 34
   EmitOn = TRUE
